@@ -1,22 +1,29 @@
 import Infretis.Model.RunnerProto
 import Infretis.Model.RunnerSysProto
+import Infretis.Model.RunnerSysXProto
 import Infretis.Model.SchedCtrProto
 import Infretis.Model.RepexProto
-/-! C17 driver: `runner-…` ops go to the stateless runner handler (trace validation), `rsys-…` ops to the
+import Infretis.Model.SchedDiskProto
+/-! C17 driver: `runner-…` ops go to the stateless runner handler (trace validation), `rx-…` ops to the runner system
+    with the exception classes `_task_wrapper` does not handle (`RunnerSysX.xstep`), `rsys-…` ops to the
     fine-grained runner system (the runner's own code as a transition system), `sched-…` ops to the
-    counter-level scheduler model, everything else to the stateful replica-exchange protocol
-    (scheduler arithmetic). -/
+    counter-level scheduler model, `sd-…` ops to the scheduler-with-files system (`SchedDisk.dstep`: whole
+    scheduler events with write points, death and stop(); stateful, begun from the current sampler state),
+    everything else to the stateful replica-exchange protocol (scheduler arithmetic). -/
 open Infretis.Repex
 
 def stateless (toks : List String) : Option String :=
   match Infretis.Runner.handle toks with
   | some r => some r
   | none =>
+    match Infretis.RunnerSysX.handle toks with
+    | some r => some r
+    | none =>
     match Infretis.RunnerSys.handle toks with
     | some r => some r
     | none => Infretis.SchedCtr.handle toks
 
-partial def c17Loop (h out : IO.FS.Stream) (d : DState) : IO Unit := do
+partial def c17Loop (h out : IO.FS.Stream) (d : DState) (sd : Option Infretis.SchedDisk.DSys) : IO Unit := do
   let line ← h.getLine
   if line.isEmpty then
     out.flush
@@ -26,11 +33,16 @@ partial def c17Loop (h out : IO.FS.Stream) (d : DState) : IO Unit := do
   match stateless toks with
   | some r =>
     out.putStrLn r
-    c17Loop h out d
+    c17Loop h out d sd
   | none =>
-    let (d', ans) := handle d toks
-    out.putStrLn ans
-    c17Loop h out d'
+    match Infretis.SchedDisk.handleSd d sd toks with
+    | some (sd', ans) =>
+      out.putStrLn ans
+      c17Loop h out d sd'
+    | none =>
+      let (d', ans) := handle d toks
+      out.putStrLn ans
+      c17Loop h out d' sd
 
 def main : IO Unit := do
-  c17Loop (← IO.getStdin) (← IO.getStdout) { s := emptySt }
+  c17Loop (← IO.getStdin) (← IO.getStdout) { s := emptySt } none
